@@ -583,11 +583,15 @@ def write_tlb_pkg(mod, sid, ast, text):
     return d
 
 
+EBASE, ECOUNT = 9_000_000, 96     # TlbShape_Gen!EBase: the Either family — (Either l r), l, r in {X, ^X, Y, ^Y}, two type pairs, three contexts
+
+
 def tlb_shape_numbers(ck):
     NA = 43
+    either = [EBASE + e for e in range(ECOUNT)]
     if ck.thorough:
-        return list(range(NA)) + [NA + (ck.seed % 1000) * 5000 + i for i in range(1000 - NA)]
-    return list(range(NA)) + [NA + (ck.seed % 1000) * 5000 + i for i in range(60 - NA)]
+        return list(range(NA)) + [NA + (ck.seed % 1000) * 5000 + i for i in range(1000 - NA)] + either
+    return list(range(NA)) + [NA + (ck.seed % 1000) * 5000 + i for i in range(60 - NA)] + either
 
 
 def gen_tlb_shapes(ck):
